@@ -43,6 +43,8 @@ def gen_cases(tier, seed):
                     # the ACK of its EOF; the re-sent EOF at the receiver awaiting the ACK of its Finished): answered, but the count goes on
                     for ph, e in [("phase1", e) for e in range(1, N + 1)] + [("phase2", 1), ("phase2", N)]:
                         cases.append({"t": t, "N": N, "ivl": ivl, "size": size, "recover": None, "distract": [ph, e]})
+                        if e < N and ph == "phase1":
+                            cases.append({"t": t, "N": N, "ivl": ivl, "size": size, "recover": None, "distract": [ph, e, "race"]})
                         if t == "eof":
                             # the user issues a put request towards another (differently configured) entity: refused, the handler is busy
                             cases.append({"t": t, "N": N, "ivl": ivl, "size": size, "recover": None, "distract": [ph, e, "put"]})
@@ -233,9 +235,33 @@ def run_positive_ack(case, side):
         dis = case.get("distract")
         for phase in ("phase1", "phase2"):
             for e in range(1, N + 1):
+                if dis and dis[0] == phase and dis[1] == e and dis[2:] == ["race"]:
+                    # the non-progress PDU is handed over in the very call which is the first one after the deadline: it is answered and the
+                    # expiry is served (re-send) in that call or in the next one at the same instant, without any exception
+                    vclock.advance(t_reset + ivl_ms - 1 - vclock.now_ms())
+                    p.expect_nothing(f"{phase}:expiry-{e}:1ms-before-deadline")
+                    vclock.advance(1)
+                    p.expiries += 1
+                    if side == "S":
+                        raw, want_kinds = pdugen.raw("NAK", tc, {"scope": (0, case["size"]), "reqs": [(0, 4)]}), ["FD"]
+                    else:
+                        raw, want_kinds = pdugen.raw("EOF", tc, {"size": case["size"], "cksum": models.checksum("crc32", w.data[: case["size"]])}), ["ACK_EOF"]
+                    tx1, fh1, fins1 = p.call(raw)
+                    tx2, fh2, fins2 = p.call()
+                    tx3, fh3, fins3 = p.call()
+                    got_all = tx1 + tx2 + tx3
+                    kinds = sorted(t["d"].get("kind") for t in got_all)
+                    resent = [t["raw"] for t in got_all if t["d"].get("kind") == kind]
+                    if kinds != sorted(want_kinds + [kind]) or resent != [cur_raw] or fh1 or fh2 or fh3 or fins1 or fins2 or fins3:
+                        p.viol.append({"clause": "expiry-together-with-non-progress-pdu-not-served", "when": f"{phase}:expiry-{e}-of-{N}",
+                                       "tx": [wire.short(t["d"]) for t in got_all], "want_kinds": sorted(want_kinds + [kind]), "fh": fh1 + fh2 + fh3})
+                    t_reset = vclock.now_ms()
+                    obs["non_progress_pdus_with_expiry"] = obs.get("non_progress_pdus_with_expiry", 0) + 1
+                    obs["resends_checked"] = obs.get("resends_checked", 0) + 1
+                    continue
                 if dis and dis[0] == phase and dis[1] == e:
                     vclock.advance(t_reset + ivl_ms // 2 - vclock.now_ms())
-                    if len(dis) > 2:
+                    if dis[2:] == ["put"]:
                         p.since()
                         try:
                             acc = w.put_to_third()
@@ -524,4 +550,4 @@ def exhaustive(tier):
 
 
 REQUIRED = {"eof_scenarios": 20, "fin_scenarios": 20, "nak_scenarios": 20, "limit_faults_checked": 50, "abandons_checked": 50,
-            "resends_checked": 50, "eof_cancel_mid_file_resends_checked": 10, "scenarios_on_reused_handler_with_retuned_interval": 10, "scenarios_next_to_other_entity_with_own_fault_table": 10, "progress_resets_checked": 4, "nak_sequence_fills_last_pdu_exactly": 10, "nak_sequence_pdus_1": 10, "nak_sequence_pdus_2": 10, "recovered_runs": 10, "non_progress_pdus_mid_interval": 20, "refused_put_requests_mid_interval": 10, "cut_runs": 50, "cut_limit_faults": 10}
+            "resends_checked": 50, "eof_cancel_mid_file_resends_checked": 10, "scenarios_on_reused_handler_with_retuned_interval": 10, "scenarios_next_to_other_entity_with_own_fault_table": 10, "progress_resets_checked": 4, "nak_sequence_fills_last_pdu_exactly": 10, "nak_sequence_pdus_1": 10, "nak_sequence_pdus_2": 10, "recovered_runs": 10, "non_progress_pdus_mid_interval": 20, "non_progress_pdus_with_expiry": 10, "refused_put_requests_mid_interval": 10, "cut_runs": 50, "cut_limit_faults": 10}
